@@ -84,10 +84,13 @@ func (e *avg) Merge(b []byte, x []byte, y []byte) ([]byte, []byte, []byte) {
 
 func (e *avg) SubMergers(subs []Expr) []SubMerge {
 	result := make([]SubMerge, 0, len(subs))
+	matched := false
 	for _, sub := range subs {
 		var sm SubMerge
-		if e.String() == sub.String() {
+		if !matched && e.String() == sub.String() {
+			// only merge from the first matching sub
 			sm = e.subMerge
+			matched = true
 		}
 		result = append(result, sm)
 	}
